@@ -249,6 +249,8 @@ type State struct {
 	ghost map[string]string // ghost field "name|identity term" -> value (sort U)
 	writes []writeRec       // frame log
 	logW   bool             // log havoc as writes (inside a callee's modifies clause)
+	infeasible bool         // the path condition is syntactically contradictory: nothing on this path needs proof
+	mapEpoch int            // bumped by every map update and every impure call: map lookups are uninterpreted in (map, epoch, key)
 }
 
 func newState() *State {
@@ -264,6 +266,8 @@ func (s *State) clone() *State {
 		n.arrs[k] = v
 	}
 	n.pc = s.pc[:len(s.pc):len(s.pc)]
+	n.mapEpoch = s.mapEpoch
+	n.infeasible = s.infeasible
 	n.trace = s.trace[:len(s.trace):len(s.trace)]
 	if s.fs != nil {
 		n.fs = cloneFS(s.fs)
@@ -282,7 +286,47 @@ func (s *State) assume(t string) {
 	if t == "true" {
 		return
 	}
+	if t == "false" {
+		s.infeasible = true
+	} else if !s.infeasible {
+		// syntactic pruning: a literal and its negation on the same path
+		neg := mkNot(t)
+		lhs, lit := eqLiteral(t)
+		for _, a := range s.pc {
+			if a == neg {
+				s.infeasible = true
+				break
+			}
+			if lit != "" {
+				// the same term equal to two different constants (switch cases)
+				if l2, c2 := eqLiteral(a); c2 != "" && l2 == lhs && c2 != lit {
+					s.infeasible = true
+					break
+				}
+			}
+		}
+	}
 	s.pc = append(s.pc, t)
+}
+
+// eqLiteral: for "(= X (_ bvN W))" returns (X, literal); else ("", "").
+func eqLiteral(t string) (string, string) {
+	if !strings.HasPrefix(t, "(= ") || !strings.HasSuffix(t, "))") {
+		return "", ""
+	}
+	i := strings.LastIndex(t, " (_ bv")
+	if i < 0 {
+		return "", ""
+	}
+	lit := t[i+1 : len(t)-1]
+	if strings.Count(lit, "(") != 1 || strings.Count(lit, ")") != 1 {
+		return "", ""
+	}
+	lhs := t[3:i]
+	if !balancedOne(lhs) {
+		return "", ""
+	}
+	return lhs, lit
 }
 
 // ---------------------------------------------------------------------------
@@ -295,6 +339,8 @@ type World struct {
 	notes  map[string]int // abstraction rows hit
 	consts map[string]constContent
 	memo   map[string]memoEntry // lazily created initial contents, shared by all states of a run
+	ghostMutable []string        // mutable ghost fields (spec ghost)
+	ghostConst   map[string]bool // immutable ghost fields (spec ghostconst)
 }
 
 type memoEntry struct {
@@ -1137,10 +1183,42 @@ func (w *World) ghostSet(s *State, field, id, val string) {
 	s.ghost[field+"|"+id] = val
 }
 
+// ghostHavoc: the object with this identity may have been changed by a callee:
+// every mutable ghost field of it becomes unknown (also those never assigned on
+// this path, which would otherwise read as the stable entry value). Ghost
+// fields declared "spec ghostconst" are properties fixed at creation (the kind
+// of a hash) and survive.
 func (w *World) ghostHavoc(s *State, id string) {
+	if s.ghost == nil {
+		s.ghost = map[string]string{}
+	}
+	for _, f := range w.ghostMutable {
+		s.ghost[f+"|"+id] = w.st.fresh("gh", sortU)
+	}
 	for k := range s.ghost {
 		if strings.HasSuffix(k, "|"+id) {
-			s.ghost[k] = w.st.fresh("gh", sortU)
+			f := k[:len(k)-len(id)-1]
+			if !w.ghostConst[f] {
+				s.ghost[k] = w.st.fresh("gh", sortU)
+			}
 		}
 	}
+}
+
+// typeConst: the constant standing for a concrete Go type (by its printed
+// name, spaces removed); distinct names are distinct constants.
+func (w *World) typeConst(st *State, name string) string {
+	name = strings.ReplaceAll(name, " ", "")
+	tc := w.st.declare("type_"+sanitize(name), nil, sortU)
+	tid := w.st.declare("type_id", []string{sortU}, bvSort(64))
+	h := fnv.New64a()
+	h.Write([]byte(name))
+	ax := mkEq(app(tid, tc), bvLit(h.Sum64(), 64))
+	for _, a := range st.pc {
+		if a == ax {
+			return tc
+		}
+	}
+	st.assume(ax)
+	return tc
 }
